@@ -151,6 +151,20 @@ func c16OpRef(l, r, op string) (bool, bool) {
 	ln, rn := c16Numeric.MatchString(l), c16Numeric.MatchString(r)
 	_, le := strconv.ParseFloat(l, 64)
 	_, re := strconv.ParseFloat(r, 64)
+	// a number with blanks around it: the documentation says both that text
+	// which represents a number is compared as a number and that blanks at
+	// the ends of text are ignored; which of the two comes first is not said
+	// (today: text). Grey zone, only the laws apply.
+	padded := func(x string, e error) bool {
+		if e == nil {
+			return false
+		}
+		_, e2 := strconv.ParseFloat(strings.TrimSpace(x), 64)
+		return e2 == nil
+	}
+	if padded(l, le) || padded(r, re) {
+		return false, false
+	}
 	cmp := 0
 	switch {
 	case ln && rn:
@@ -193,6 +207,8 @@ var c16Pool = []string{
 	// letters for which lower-casing, upper-casing and case folding disagree
 	"ΣΟΦΟΣ", "σοφος", "σοφοσ", "ſ", "s", "İzmir", "izmir", "i̇zmir", "µ", "μ", "ß", "ss", "\u212A", "k",
 	"1e5", "100000", "0x10", "16", "inf", "-inf", "Inf", "infinity", "nan", "NaN", "1_0", ".5", "0.5", "5.", "5", "1,5", "+", "-", "1.2.3", "true", "false", "<nil>",
+	// numbers with blanks around them
+	" 12", "12.0 ", " 5 ", "12",
 }
 
 // --- JSON normalisation ---
